@@ -60,9 +60,10 @@ CLAIMED = {
     'C01': dict(category='other', design_ref='DESIGN.md section 4 C01, section 9',
         text='Proved for all strings: the quoting lemma of the UVL writer (safe_simple_name leaves a name bare exactly when it starts with a letter, has '
              'only [A-Za-z0-9_] and is not a keyword; otherwise it is the name in double quotes; removing the double quotes, as the reader does, gives the '
-             'name back), writer purity. Bounded: write/read cycles (3 cycles, byte-identical text) over random fragment models with typed features, '
+             'name back); the group keyword written for a relation (serialize_relation) is the one to which UVL gives the relation\'s cardinality '
+             '(mandatory / optional / alternative / or / [n] / [a..b] / [a..*]); writer purity. Bounded: write/read cycles (3 cycles, byte-identical text) over random fragment models with typed features, '
              'cardinalities, nested attribute values, all operators and hostile names.',
-        note=BASE + 'The walks over ANTLR parse trees and the ANTLR front end are bounded only. Known finding C01_cardinality_like_list (lexer of the dependency). str.replace modelled for one-character patterns.'),
+        note=BASE + 'The walks over ANTLR parse trees and the ANTLR front end are bounded only. Known findings C01_cardinality_like_list, C01_string_with_dot (lexer of the dependency). str.replace modelled for one-character patterns.'),
     'C02': dict(category='other', design_ref='DESIGN.md section 4 C02, section 9',
         text='Proved for all heaps: the model-side mutators every reader builds trees with -- add_relation (every child adopts the owner; the relation list '
              'grows by exactly that relation), add_attribute, add_child, set_parent -- including their frames (field-granular modifies); the FeatureIDE reader returns constraint trees in the library form for every rule element (contract shared with C09). Bounded: '
@@ -87,7 +88,7 @@ CLAIMED = {
              'enumerated attributes), relations compared as bags per parent.',
         note=BASE + 'Everything except purity is bounded. ANTLR AFM front end assumed.'),
     'C07': dict(category='other', design_ref='DESIGN.md section 4 C07, section 9',
-        text='Deductive part: writer purity (effect analysis); writer stage 1 (_get_ctc_info: constraint tree -> nested rule dicts): for every logical tree without XOR the document has the arities of the format and the truth value of the tree (requires as imp, excludes as imp(a, not b)); reader side: _parse_rule returns, for every rule element, a tree with the truth value the format gives the element (contract shared with C09). Bounded: 4 cycles over random FeatureIDE-fragment models with 0-3 constraints incl. single '
+        text='Deductive part: writer purity (effect analysis); element tag and attributes of a feature (_tag_element: feature / or / alt / and as FeatureIDE defines them; _get_attributes: mandatory and abstract independently, name verbatim); writer stage 1 (_get_ctc_info: constraint tree -> nested rule dicts): for every logical tree without XOR the document has the arities of the format and the truth value of the tree (requires as imp, excludes as imp(a, not b)); reader side: _parse_rule returns, for every rule element, a tree with the truth value the format gives the element (contract shared with C09). Bounded: 4 cycles over random FeatureIDE-fragment models with 0-3 constraints incl. single '
              'literals and hostile names; text identical from the second write on (iff is read as two implications).',
         note=BASE + 'Writer stage 2 (_create_elem_constraint: dicts -> Elements through ElementTree.SubElement, mutation of the parent) and the feature-tree walks are bounded only, so the round trip as a whole is bounded. ElementTree / minidom assumed; Element modelled as a value.'),
     'C08': dict(category='other', design_ref='DESIGN.md section 4 C08, section 9',
@@ -108,9 +109,9 @@ CLAIMED = {
              'propositional syntax over all 2^n selections against brute-force valid configurations (all trees <= 4 features, special families, random).',
         note=BASE + 'Known findings C18_dep_simplify (XOR / EQUIVALENCE clauses), C10_pl_names. Group-semantics lemma bounded.'),
     'C11': dict(category='other', design_ref='DESIGN.md section 4 C11, section 9',
-        text='Deductive part: writer purity. Bounded: the export parsed by an independent interpreter of the emitted Clafer subset (xor / or / mux / a..b, ?, '
+        text='Deductive part: parse_group_type writes, for a feature whose children form one group, the keyword whose Clafer meaning is the group cardinality (xor = exactly one, or = at least one, mux = at most one, a..b) and none for solitary children; writer purity. Bounded: the export parsed by an independent interpreter of the emitted Clafer subset (xor / or / mux / a..b, ?, '
              'top-level constraints) over all 2^n selections; identifier consistency between declaration and use of features and attributes.',
-        note=BASE + 'Known finding C11_opword_names. Everything except purity is bounded.'),
+        note=BASE + 'Known finding C11_opword_names. The text of the export as a whole (indentation, constraints, attributes) is bounded only.'),
     'C12': dict(category='other', design_ref='DESIGN.md section 4 C12, section 9',
         text='Decided deductively for all inputs by the effect analysis and call-site checks on the real source: each of the eight Writer.transform is pure '
              '(writes nothing reachable from the writer / model, no process-wide state), reaches no order- or process-dependent primitive (set iteration, hash, '
